@@ -961,7 +961,7 @@ func (g *fgen) oblige(kind, label, goal string, pos token.Pos) {
 		// trivially true: still count it, discharged without solver
 	}
 	var extra []string
-	if strings.HasPrefix(goal, "(forall ((") {
+	if strings.HasPrefix(goal, "(forall ((") || strings.HasPrefix(goal, "(=> ") {
 		// skolem constants and the instances at them are private to this obligation
 		n := len(g.lines)
 		goal = g.skolemizeGoal(goal)
